@@ -52,6 +52,10 @@ def getPipes (incr : Bool) (order : List Pipe) : List Pipe :=
 /-! ## SHOW PIPES paging (`cmdShowPipes`) -/
 
 def maxInt32 : Int := 2147483647
+def maxInt64 : Int := 9223372036854775807
+
+/-- Go's `int` addition on a 64-bit platform: two's complement wrap-around -/
+def wrap64 (x : Int) : Int := (x + 9223372036854775808) % 18446744073709551616 - 9223372036854775808
 
 /-- `none` = the statement is rejected (negative offset). `limit`/`offset` are the statement's optional values. -/
 def showPipes (names : List Bytes) (limit offset : Option Int) : Option (List Bytes) :=
@@ -60,7 +64,8 @@ def showPipes (names : List Bytes) (limit offset : Option Int) : Option (List By
   let offs := offset.getD 0
   if offs < 0 then none else
   let len : Int := names.length
-  let lim2 := if lim1 + offs > len then (if len - offs < 0 then 0 else len - offs) else lim1
+  -- `if lim+offs > len(stms)` is evaluated in Go's int arithmetic: the sum wraps for limits close to MaxInt64
+  let lim2 := if wrap64 (lim1 + offs) > len then (if len - offs < 0 then 0 else len - offs) else lim1
   -- for i := offs; i < len && lim > 0; i++ { emit; lim-- }
   some ((names.drop offs.toNat).take lim2.toNat)
 
